@@ -28,17 +28,20 @@ Section Generic.
     let h := sdiv O (ssub O b a) (s_of_Z O n) in
     map (fun i => (sadd O a (smul O (s_of_Z O i) h),
                    smul O (sdiv O h (s_of_Z O 3)) (get_simpson_weight O i n))) (zrange_incl 0 n).
-  (* the 1-D entry point first replaces divs by divs + divs % 2 - 2 *)
-  Definition simpson_norm (divs : Z) : Z := (divs + divs mod 2 - 2)%Z.
+  (* the 1-D entry point first replaces divs by divs + divs % 2 - 2: [simpson_norm_divs] is that re-binding as translated *)
+  Definition simpson_norm (divs : Z) : Z := simpson_norm_divs divs.
   Definition simpson_rule (a b : Sc O) (divs : Z) : rule := simpson_rule_n a b (simpson_norm divs).
 
-  (* the 2-D entry point uses divs as given, nodes from Steps::value, and one factor dx dy / 9 *)
-  Definition simpson2d_axis (a b : Sc O) (divs : Z) : list (Sc O * Sc O) :=   (* (node, integer weight) *)
-    map (fun i => (steps_value O a b (divs + 1) i, get_simpson_weight O i divs)) (zrange 0 (divs + 1)).
+  (* the 2-D entry point uses divs as given (on the pinned tree [simpson2d_norm_divs] is the identity), nodes from
+     Steps::value, and one factor dx dy / 9 *)
+  Definition simpson2d_norm (divs : Z) : Z := simpson2d_norm_divs divs.
+  Definition simpson2d_axis (a b : Sc O) (n : Z) : list (Sc O * Sc O) :=   (* (node, integer weight) *)
+    map (fun i => (steps_value O a b (n + 1) i, get_simpson_weight O i n)) (zrange 0 (n + 1)).
   Definition simpson2d_rule (ax bx ay by_ : Sc O) (divs : Z) : rule2 :=
-    let c := sdiv O (smul O (sdiv O (ssub O bx ax) (s_of_Z O divs)) (sdiv O (ssub O by_ ay) (s_of_Z O divs))) (s_of_Z O 9) in
+    let n := simpson2d_norm divs in
+    let c := sdiv O (smul O (sdiv O (ssub O bx ax) (s_of_Z O n)) (sdiv O (ssub O by_ ay) (s_of_Z O n))) (s_of_Z O 9) in
     flat_map (fun yw => map (fun xw => ((fst xw, fst yw), smul O c (smul O (snd yw) (snd xw))))
-                            (simpson2d_axis ax bx divs)) (simpson2d_axis ay by_ divs).
+                            (simpson2d_axis ax bx n)) (simpson2d_axis ay by_ n).
 
   (* gauss-quad 0.2.4, GaussLegendre::integrate(a, b, f) = scale_factor(a,b) * sum_i f(argument_transformation(x_i,a,b)) * w_i
      with argument_transformation(x,a,b) = 0.5*((b-a)*x + (b+a)), scale_factor(a,b) = 0.5*(b-a)   (external crate, hand model;
